@@ -45,7 +45,7 @@ func (c11) Runs(tier string) int {
 
 func (p c11) Run(runseed uint64, tier string, acc *Acc) []*core.Violation {
 	r := core.NewRng(runseed)
-	o := core.HistOpts{Shapes: allShapes, PageMin: 1, PageMax: 8, MinBatches: 0, MaxBatches: 4, MaxOps: 30, Profile: core.Benign, LargePct: 1, ManyPct: 1, ManyMax: 60, HugePct: 1,
+	o := core.HistOpts{Shapes: allShapes, PageMin: 1, PageMax: 8, MinBatches: 0, MaxBatches: 4, MaxOps: 30, Profile: core.Benign, LargePct: 1, ManyPct: 1, ManyMax: 60, HugePct: 1, BoundaryPct: 3,
 		// any history a caller may issue produces "a valid file": include Writes with nothing pending and records
 		// pending at Close (what a writer does with them at Close decides which prefixes look complete)
 		EmptyWrites: true, PendingClose: true}
